@@ -13,3 +13,5 @@ import Amqp.Codec
 import Amqp.Reasm
 import Amqp.Handles
 import Amqp.LinkSplit
+import Amqp.Gen.SettleKernels
+import Amqp.Settle
